@@ -38,7 +38,10 @@ def build_request(r, rng):
             "two-parts": b"GET /chat", "fragment": b"GET /chat#frag HTTP/1.1"}[r["line"]]
     h = []
     if r["host"] == "ok":
-        h.append(variants(rng, b"Host", b"localhost:9000"))
+        # (every spelling of a host with the right port or with none: names, IPv4 and bracketed IPv6 literals, and the
+        # unbracketed "::1:9000" that the library's own client writes for ws://[::1]:9000)
+        h.append(variants(rng, b"Host", rng.choice([b"localhost:9000", b"localhost:9000", b"localhost", b"127.0.0.1:9000", b"[::1]:9000",
+                                                     b"[2001:db8::1]:9000", b"[::1]", b"example.com:9000", b"::1:9000"])))
     elif r["host"] == "dup":
         h += dup(rng, b"Host", b"localhost:9000", b"otherhost:9000")
     elif r["host"] == "badport":
@@ -109,6 +112,20 @@ def segment(data, mode, rng):
     return [data[a:b] for a, b in zip([0] + cuts, cuts + [len(data)])]
 
 
+def deliver(p, parts, rng):
+    """hand the parts to the endpoint one read at a time or - a third of the time - several reads back-to-back without an
+    event-loop turn in between (on asyncio the adapter queues them); returns the name of an escaping exception or """""
+    esc = ""
+    i = 0
+    while i < len(parts):
+        k = rng.randint(2, 4) if (len(parts) - i > 1 and rng.random() < 0.35) else 1
+        e = fw.feed_burst(p, parts[i:i + k]) if k > 1 else fw.feed(p, parts[i])
+        if e is not None and not esc:
+            esc = type(e).__name__
+        i += k
+    return esc
+
+
 def parse_response(raw):
     m = re.match(rb"HTTP/1\.[01] (\d+)", raw)
     status = int(m.group(1)) if m else 0
@@ -160,10 +177,7 @@ def run_server(inp, rng):
                 p, t = wsx.make_server(log, factory=factory, onconnect=onconnect)
                 esc = ""
                 trailing = wsx.build_frame(1, b"hi", mask=b"\x01\x02\x03\x04") if rng.random() < 0.3 else b""
-                for part in segment(data + trailing, seg, rng):
-                    e = fw.feed(p, part)
-                    if e is not None and not esc:
-                        esc = type(e).__name__
+                esc = deliver(p, segment(data + trailing, seg, rng), rng)
                 fw.settle()
                 late = False
                 if p.state == WSP.STATE_CONNECTING:
@@ -253,11 +267,7 @@ def run_client(inp, rng):
             data = build_response(p_, key, other, rng)
             if rng.random() < 0.3:
                 data += wsx.build_frame(1, b"hi")
-            esc = ""
-            for part in segment(data, seg, rng):
-                e = fw.feed(p, part)
-                if e is not None and not esc:
-                    esc = type(e).__name__
+            esc = deliver(p, segment(data, seg, rng), rng)
             fw.settle()
             obs = dict(opened=p.state == WSP.STATE_OPEN, dropped=t.dropped, escaped=esc, state=wsx.STATE[p.state])
             traces.append([dict(ev="cresp", resp=p_, seg=seg, obs=obs)])
@@ -289,11 +299,7 @@ def run_limit(inp, rng):
                 p, t = wsx.make_server(log, factory=factory)
                 data, key = build_request(dict(line="ok", host="ok", upgrade="ok", conn="ok", version="ok", key="ok", origin="ok-absent",
                                                protos="ok-none", exts="ok-none", onconn="ok-none"), rng)
-                esc = ""
-                for part in segment(data, rng.choice(["whole", "random"]), rng):
-                    e = fw.feed(p, part)
-                    if e is not None and not esc:
-                        esc = type(e).__name__
+                esc = deliver(p, segment(data, rng.choice(["whole", "random"]), rng), rng)
                 fw.settle()
                 status, _ = parse_response(bytes(t.written))
                 admitted = any(x[0] == "onOpen" for x in log)
@@ -381,7 +387,9 @@ def run_pair(inp, rng):
                     esc = ""
                     try:
                         pair = wsx.Pair(sopts=sopts, copts=copts, sproto=sprot, cproto=cprot, skw=dict(headers=hdrs) if hdrs else None,
-                                        ckw=dict(headers=hdrs) if hdrs else None)
+                                        ckw=dict(headers=hdrs) if hdrs else None,
+                                        url=rng.choice(["ws://localhost:9000", "ws://localhost:9000", "ws://[::1]:9000", "ws://127.0.0.1:9000/a",
+                                                        "ws://[2001:db8::1]:9000/x", "ws://example.com"]))
                         # segmentation: deliver the request byte-wise half of the time
                         if rng.random() < 0.5:
                             while pair.ct.unread():
@@ -453,11 +461,7 @@ def run_fuzz(inp, rng):
             must_not = True
             if role == "client":
                 data = b"HTTP/1.1 303 See Other\r\nLocation: /" + q + b"\r\n\r\n"
-        esc = ""
-        for part in segment(data, rng.choice(["whole", "bytes", "random"]) if len(data) < 2000 else "random", rng):
-            e = fw.feed(p, part)
-            if e is not None and not esc:
-                esc = type(e).__name__
+        esc = deliver(p, segment(data, rng.choice(["whole", "bytes", "random"]) if len(data) < 2000 else "random", rng), rng)
         fw.settle()
         traces.append([dict(ev="fuzz", role=role, kind=kind, mustNotOpen=must_not, data=list(data[:200]),
                             obs=dict(opened=p.state == WSP.STATE_OPEN, escaped=esc, state=wsx.STATE[p.state]))])
